@@ -143,6 +143,10 @@ def bsearch($target):
       else .[2]
       end
   end;
+def todate: strftime(\"%Y-%m-%dT%H:%M:%SZ\");
+def fromdateiso8601: strptime(\"%Y-%m-%dT%H:%M:%SZ\")|mktime;
+def todateiso8601: strftime(\"%Y-%m-%dT%H:%M:%SZ\");
+def fromdate: fromdateiso8601;
 def finites: select(isinfinite or isnan | not);
 .
 "
